@@ -8,7 +8,8 @@ from vlib.wsgi import call
 
 INFO = {
     'level': 'exploration',
-    'rule': ('(i) for ordered pairs of requests from a catalogue of 14 kinds (success with provides-middleware, other route / '
+    'rule': ('(i) for ordered pairs of requests from a catalogue of 15 kinds on a harness application plus 9 kinds on an application with the '
+             'built-in stats / gzip / signed-cookie / GET-parameter middlewares (success with provides-middleware, other route / '
              'parameters / method, 404, 405, non-breaking fall-through, non-breaking error as final answer, uncaught exception, '
              'raised and returned HTTP errors, slash redirect, debug 500): request A runs k line-steps inside clastic / generated '
              'code, B runs to completion, A finishes - for every k (complete for the listed pairs); (ii) Hypothesis-drawn '
@@ -94,7 +95,84 @@ def build(debug=False):
     return Application(routes, middlewares=[Tok(), EpTok()], debug=debug)
 
 
+KINDS2 = {
+    'set-a': ('GET', '/set/alpha', 'q=qa', None), 'set-b': ('GET', '/set/beta', 'q=qb', None),
+    'read-a': ('GET', '/read', 'q=ra', 'A'), 'read-b': ('GET', '/read', 'q=rb', 'B'), 'read-none': ('GET', '/read', 'q=rn', None),
+    'big-a': ('GET', '/big/aaa', 'q=ba', 'A'), 'big-b': ('GET', '/big/bbb', 'q=bb', None), 'gz-404': ('GET', '/nothing', 'q=g4', 'B'),
+    'gz-boom': ('GET', '/kaboom/kk', 'q=gb', 'A'),
+}
+PAIRS2 = [('set-a', 'set-b'), ('read-a', 'read-b'), ('set-a', 'read-b'), ('read-a', 'read-none'), ('big-a', 'big-b'), ('big-a', 'read-b'),
+          ('gz-404', 'set-a'), ('gz-boom', 'read-a'), ('read-b', 'gz-404')]
+_cookies = {}
+
+
+def build_builtin():
+    """the same idea with the built-in middlewares in the stack: signed cookie, gzip, GET-parameter extraction, stats"""
+    from clastic import Application, Route, Response
+    from clastic.middleware import GzipMiddleware, GetParamMiddleware
+    from clastic.middleware.cookie import SignedCookieMiddleware
+    from clastic.middleware.stats import StatsMiddleware
+
+    def set_(name, cookie, q):
+        cookie['who'] = name
+        cookie['q'] = q
+        return Response('set %s %s' % (name, q))
+
+    def read(cookie, q, request):
+        return Response('read who=%s cq=%s q=%s path=%s' % (cookie.get('who'), cookie.get('q'), q, request.path))
+
+    def big(tag, cookie, q):
+        return Response(('%s|%s|%s;' % (tag, q, cookie.get('who'))) * 400, mimetype='text/plain')
+
+    def kaboom(x, cookie, q):
+        raise ZeroDivisionError('kaboom %s %s %s' % (x, q, cookie.get('who')))
+    app = Application([Route('/set/<name>', set_), Route('/read', read), Route('/big/<tag>', big), Route('/kaboom/<x>', kaboom)],
+                      middlewares=[StatsMiddleware(), GzipMiddleware(), SignedCookieMiddleware(secret_key='zq-key'), GetParamMiddleware(['q'])])
+    # two client cookies issued up front
+    for who in ('A', 'B'):
+        r = call(app, '/set/client' + who, query='q=init' + who)
+        sc = [v for k, v in r.headers if k.lower() == 'set-cookie'][0]
+        _cookies[who] = sc.split(';', 1)[0]
+    return app
+
+
+def requester2(app, kind):
+    method, path, query, who = KINDS2[kind]
+
+    def f():
+        hdrs = {'Accept-Encoding': 'gzip', 'Accept': 'text/plain'}
+        if who:
+            hdrs['Cookie'] = _cookies[who]
+        r = call(app, path, method, query=query, headers=hdrs)
+        body = r.body
+        if (r.header('Content-Encoding') or '') == 'gzip':
+            import gzip
+            try:
+                body = b'gzip:' + gzip.decompress(body)      # the gzip header carries a timestamp
+            except Exception as e:
+                body = b'undecodable gzip: ' + repr(e).encode()
+        return (r.status, norm(body), r.header('Set-Cookie'), r.header('Content-Encoding'), (r.header('Content-Type') or '').split(';')[0],
+                repr(r.exc) if r.exc else None)
+    return f
+
+
+def setup2():
+    if 'app2' not in _state:
+        app = build_builtin()
+        alone = {}
+        for kind in KINDS2:
+            f = requester2(app, kind)
+            f()
+            a, b = f(), f()
+            alone[kind] = a
+            alone[kind + '#stable'] = (a == b)
+        _state['app2'] = (app, alone)
+    return _state['app2']
+
+
 def requester(app, kind):
+    if kind in KINDS2:
+        return requester2(app, kind)
     method, path, query = KINDS[kind]
 
     def f():
@@ -145,7 +223,8 @@ def check_results(ctx, kinds, results, errors, alone, what, rc):
         if results[i] != alone[kind]:
             exp, got = alone[kind], results[i]
             field = [j for j in range(len(exp)) if exp[j] != got[j]][0]
-            name = ['status', 'body', 'Location', 'Allow', 'Content-Type', 'exception'][field]
+            name = (['status', 'body', 'Set-Cookie', 'Content-Encoding', 'Content-Type', 'exception'] if kind in KINDS2 else
+                    ['status', 'body', 'Location', 'Allow', 'Content-Type', 'exception'])[field]
             ctx.mismatch('interference:' + name, '%s: request %s got %s %r, served alone %r'
                          % (what, kind, name, got[field] if field != 1 else got[field][:160], exp[field] if field != 1 else exp[field][:160]), rc)
             return False
@@ -155,7 +234,7 @@ def check_results(ctx, kinds, results, errors, alone, what, rc):
 def run_pairs(spec, ctx):
     ctx.exhaustive = True
     for debug, (ka, kb) in spec['pairs']:
-        app, alone = setup(debug)
+        app, alone = setup2() if debug == 'builtin' else setup(debug)
         na = steps_alone(app, ka)
         stride = spec.get('debug_stride', 1) if debug else 1
         if stride > 1:
@@ -279,8 +358,9 @@ def shards(tier, seed):
         pairs = [(False, (a, b)) for a in kinds for b in kinds] + [(True, (a, b)) for a in ('boom-z', '404', 'forbid-q', 'ok-a') for b in ('boom-y', '404', '405', 'ok-b')]
     n = 9
     # debug (contextual) error pages cost ~50 ms each under tracing: the quick tier samples every 9th preemption point there
-    dbg = [p for p in pairs if p[0]]
-    plain = [p for p in pairs if not p[0]]
+    dbg = [p for p in pairs if p[0] is True]
+    plain = [p for p in pairs if p[0] is False]
+    plain += [('builtin', p) for p in PAIRS2]
     out = [{'part': 'pairs', 'pairs': plain[i::n]} for i in range(n)]
     out += [{'part': 'pairs', 'pairs': [p], 'debug_stride': 4 if q else 1} for p in dbg]
     out += [{'part': 'sched', 'n': 80 if q else 4000} for _ in range(3)]
@@ -300,7 +380,7 @@ def run_shard(spec, ctx):
 
 def replay(case, kind, ctx):
     if isinstance(case, dict) and 'pair' in case:
-        app, alone = setup(case.get('debug', False))
+        app, alone = setup2() if case.get('debug') == 'builtin' else setup(case.get('debug', False))
         ka, kb = case['pair']
         s = Sched(2)
         results, errors = s.run([requester(app, ka), requester(app, kb)], [(0, case['k']), (1, 1 << 60)])
